@@ -18,12 +18,9 @@ open SaphyrVerif
 variable {o : Opts} {f : ScalarFns}
 
 /-- the tokens the emitter writes for strings, whatever the scalar-text functions are -/
-def genToks (o : Opts) (f : ScalarFns) : Toks where
-  str := strTok o f
-  key := keyStrText o f
-  name := plainOrQuoted o f
-  unit := fun e n =>
-    if o.taggedEnums then '!' :: '!' :: e ++ ' ' :: plainOrQuotedValue o f false n else strTok o f n
+def genToks (o : Opts) (f : ScalarFns) : Toks :=
+  Toks.ofStr (strTok o f) (keyStrText o f) (plainOrQuoted o f)
+    (fun e n => if o.taggedEnums then '!' :: '!' :: e ++ ' ' :: plainOrQuotedValue o f false n else strTok o f n)
 
 /-- a YAML 1.1 boolean word that `yaml_12` leaves plain in value position -/
 def boolRisk (o : Opts) (s : List Char) : Bool := o.yaml12 && !o.quoteAll && isBoolWord s
@@ -37,22 +34,23 @@ def implPred (o : Opts) : LeafPred where
     if o.taggedEnums then tagNameOk e && !boolRisk o n else !autoBlock o implFns n && !boolRisk o n
 
 /-- the write contract holds by construction (for any scalar-text functions) -/
-theorem gen_write {P : LeafPred} (hs : ∀ s, P.str s = true → autoBlock o f s = false)
+theorem gen_write (ho : FragOpts o) {P : LeafPred} (hs : ∀ s, P.str s = true → autoBlock o f s = false)
     (hu : ∀ e n, P.unit e n = true → o.taggedEnums = false → autoBlock o f n = false) :
-    WriteContract o f P (genToks o f) where
-  str := fun s h st h1 h2 => serStr_token h1 h2 (hs s h)
-  unit := fun e n h st h1 h2 => by
+    WriteContract o f P (genToks o f) :=
+  WriteContract.ofTok ho (Toks.ofStr_isTok _ _ _ _)
+  (fun s h st h1 h2 => serStr_token h1 h2 (hs s h))
+  (fun e n h st h1 h2 => by
     cases ht : o.taggedEnums
     · rw [ser]
-      simp only [ht, Bool.false_eq_true, if_false, genToks]
+      simp only [ht, Bool.false_eq_true, if_false, genToks, Toks.ofStr_unit]
       rw [serStr_token h1 h2 (hu e n h ht)]
     · rw [ser_unit_tagged ht e n h2]
-      simp [genToks, ht]
-  key := fun s _ => rfl
-  name := fun n _ => rfl
+      simp [genToks, ht])
+  (fun s _ => rfl)
+  (fun n _ => rfl)
 
-theorem impl_write : WriteContract o implFns (implPred o) (genToks o implFns) :=
-  gen_write (fun s h => by simp only [implPred, Bool.and_eq_true, Bool.not_eq_true'] at h; exact h.1)
+theorem impl_write (ho : FragOpts o) : WriteContract o implFns (implPred o) (genToks o implFns) :=
+  gen_write ho (fun s h => by simp only [implPred, Bool.and_eq_true, Bool.not_eq_true'] at h; exact h.1)
     (fun e n h ht => by simp only [implPred, ht, Bool.false_eq_true, if_false, Bool.and_eq_true, Bool.not_eq_true'] at h; exact h.1)
 
 /-! ### the read contract -/
@@ -132,24 +130,26 @@ theorem plainOrQuoted_keyTok (s : List Char) (hb : boolRisk o s = false) : KeyTo
 
 /-- the reference reader takes the tokens of the crate's own scalar-text functions for the strings they
 were written for -/
-theorem impl_read (o : Opts) : ReadContract (implPred o) (genToks o implFns) where
-  str := fun s h => by
+theorem impl_read (o : Opts) (k : Nat) : ReadContract (implPred o) (genToks o implFns) k :=
+  ReadContract.ofTok (Toks.ofStr_isTok _ _ _ _)
+  (fun s h => by
     simp only [implPred, Bool.and_eq_true, Bool.not_eq_true'] at h
-    exact strTok_scalarTok s h.2
-  unit := fun e n h => by
+    exact strTok_scalarTok s h.2)
+  (fun e n h => by
     cases ht : o.taggedEnums
     · simp only [implPred, ht, Bool.false_eq_true, if_false, Bool.and_eq_true, Bool.not_eq_true'] at h
-      simp only [genToks, ht, Bool.false_eq_true, if_false]
+      simp only [genToks, ht, Bool.false_eq_true, if_false, Toks.ofStr_unit]
       exact strTok_scalarTok n h.2
     · simp only [implPred, ht, if_true, Bool.and_eq_true, Bool.not_eq_true'] at h
-      simp only [genToks, ht, if_true]
-      exact tagged_scalarTok h.1 (pqv_coreTok n h.2)
-  key := fun s h => by
+      simp only [genToks, ht, if_true, Toks.ofStr_unit]
+      exact tagged_scalarTok h.1 (pqv_coreTok n h.2))
+  (fun s h => by
     simp only [implPred, Bool.not_eq_true'] at h
-    exact keyStrText_keyTok s h
-  name := fun n h => by
+    exact keyStrText_keyTok s h)
+  (fun n h => by
     simp only [implPred, Bool.not_eq_true'] at h
-    exact plainOrQuoted_keyTok n h
+    exact plainOrQuoted_keyTok n h)
+  k
 
 /-! ### a simpler class: single-line strings below the folding threshold -/
 
